@@ -735,3 +735,221 @@ func codecTable(fn *ssa.Function, R *Renderer, call ssa.Instruction) []codecItem
 	}
 	return out
 }
+
+// ---------------------------------------------------------------------------
+// C15-SERVER: the replica side of the data connection.  Every request type the client issues is
+// dispatched to the handler that performs exactly that operation on the data server with the
+// fields of the request; the handler hands the operation's own result and error to
+// createResponse; createResponse turns an error into a TypeError reply that carries the error
+// text; and exactly one reply is written per request before the next one is read.
+// ---------------------------------------------------------------------------
+
+func paramOfType(fn *ssa.Function, typ string) string {
+	for i, p := range fn.Params {
+		if short(types.TypeString(p.Type(), nil)) == typ {
+			if pl := paramAlias[fn]; pl != nil && i < len(pl.terms) {
+				return pl.terms[i]
+			}
+			return fmt.Sprintf("$%d", i)
+		}
+	}
+	return ""
+}
+
+func ruleC15Server(c *Ctx) {
+	const rule = "C15-SERVER"
+	c.Doc(rule, "rpc.Server: readWrite dispatches TypeRead/Write/Ping/Sync/Unmap on the equality edge of the request's type to handleRead/Write/Ping/Sync/Unmap and writes one reply for the message it read before it reads the next; each handler calls the matching DataProcessor method with the request's Data / Offset / Size (read: into a fresh buffer of Size bytes) and passes that call's count and error to createResponse; createResponse marks the reply TypeResponse, TypeEOF on io.EOF, and TypeError with the error text as payload whenever the error is non-nil")
+	rw := c.Anchor(rule, fRSrv+"readWrite")
+	if rw != nil {
+		R := NewRenderer(rw)
+		var rd []ssa.Instruction
+		rd = CallsTo(rw, "(*rpc.Wire).Read")
+		wr := CallsToW(rw, "(*rpc.Wire).Write")
+		if len(rd) != 1 || len(wr) != 1 {
+			c.Bad(rule, FnName(rw)+" | structure", "", fmt.Sprintf("expected one Wire.Read and one reply write per round, found %d / %d", len(rd), len(wr)), nil)
+		} else {
+			msg := R.V(rd[0].(*ssa.Call)) + "#0"
+			table := []struct{ typ, handler string }{{"TypeRead", "handleRead"}, {"TypeWrite", "handleWrite"}, {"TypePing", "handlePing"}, {"TypeSync", "handleSync"}, {"TypeUnmap", "handleUnmap"}}
+			for _, e := range table {
+				k, ok := c.P.pkgIntConst("rpc", e.typ)
+				if !ok {
+					c.Undecided(rule, "constant rpc."+e.typ, "", "constant not found")
+					continue
+				}
+				var sites []ssa.Instruction
+				eachInstr(rw, func(in ssa.Instruction) {
+					cl, ok := in.(*ssa.Call)
+					if !ok {
+						return
+					}
+					s := R.V(cl)
+					if strings.Contains(s, fRSrv+e.handler+"$bound") || strings.HasPrefix(s, fRSrv+e.handler+"(") {
+						sites = append(sites, in)
+					}
+				})
+				key := FnName(rw) + " | " + e.typ + " -> " + e.handler
+				if len(sites) != 1 {
+					c.Bad(rule, key, "", fmt.Sprintf("expected one dispatch of %s, found %d", e.handler, len(sites)), nil)
+					continue
+				}
+				want := "+" + msg + ".Type ==0"
+				if k != 0 {
+					want = fmt.Sprintf("+%s.Type -%d ==0", msg, k)
+				}
+				c.Guard(rule, rw, sites, "dispatch "+e.handler, nil, atom("request type is "+e.typ, want))
+				if !strings.Contains(R.V(sites[0].(*ssa.Call)), msg) {
+					c.Bad(rule, key+" | message", c.P.InstrPos(sites[0]), "the handler is not given the message that was read", nil)
+				}
+				// the reply is written before the next request is read
+				ws := Query{Fn: rw, Start: sites[0], IsSite: func(in ssa.Instruction) bool { return in == rd[0] }, Gen: func(in ssa.Instruction) bool { return in == wr[0] }}.Run()
+				if len(ws) > 0 {
+					c.Bad(rule, key+" | reply written", c.P.InstrPos(sites[0]), "the next request can be read without a reply to this one having been written (the client waits for it until its deadline)", c.witness(ws[0]))
+				} else {
+					c.OK(rule, key+" | reply written", c.P.InstrPos(sites[0]), "every path from the dispatch to the next Wire.Read passes the reply write", true)
+				}
+			}
+			if got := renderVia(R, wr[0], "(*rpc.Wire).Write"); !strings.Contains(got, msg) {
+				c.Bad(rule, FnName(rw)+" | reply is the request message", c.P.InstrPos(wr[0]), "the reply written is "+got, nil)
+			}
+		}
+	}
+	// handlers
+	type hspec struct {
+		name, call string
+		count      bool
+	}
+	for _, h := range []hspec{
+		{"handleRead", "invoke.ReadAt(%s.data,%s.Data,%s.Offset)", true},
+		{"handleWrite", "invoke.WriteAt(%s.data,%s.Data,%s.Offset)", true},
+		{"handleSync", "invoke.Sync(%s.data)", false},
+		{"handleUnmap", "invoke.Unmap(%s.data,%s.Offset,%s.Size)", false},
+		{"handlePing", "invoke.PingResponse(%s.data)", false},
+	} {
+		fn := c.Anchor(rule, fRSrv+h.name)
+		if fn == nil {
+			continue
+		}
+		R := NewRenderer(fn)
+		srv, msg := paramOfType(fn, "*rpc.Server"), paramOfType(fn, "*rpc.Message")
+		want := h.call
+		switch strings.Count(want, "%s") {
+		case 1:
+			want = fmt.Sprintf(want, srv)
+		case 3:
+			want = fmt.Sprintf(want, srv, msg, msg)
+		}
+		var op ssa.Instruction
+		eachInstr(fn, func(in ssa.Instruction) {
+			if cl, ok := in.(*ssa.Call); ok && R.V(cl) == want {
+				op = in
+			}
+		})
+		key := FnName(fn) + " | performs " + want
+		if op == nil {
+			c.Bad(rule, key, c.P.Pos(fn.Pos()), "the handler does not call the matching data operation with the request's fields", nil)
+			continue
+		}
+		c.OK(rule, key, c.P.InstrPos(op), "", false)
+		// createResponse(count, msg, err) of that very call
+		crs := CallsTo(fn, fRSrv+"createResponse")
+		if len(crs) != 1 {
+			c.Bad(rule, FnName(fn)+" | one response", "", fmt.Sprintf("expected one createResponse call, found %d", len(crs)), nil)
+			continue
+		}
+		got := callRender(R, crs[0])
+		errT, cntT := want+"#1", "0"
+		if h.name == "handlePing" {
+			errT = want
+		}
+		if h.count {
+			cntT = want + "#0"
+		}
+		if strings.HasSuffix(got, "("+srv+","+cntT+","+msg+","+errT+")") || strings.HasSuffix(got, "("+cntT+","+msg+","+errT+")") {
+			c.OK(rule, FnName(fn)+" | response carries the operation's count and error", c.P.InstrPos(crs[0]), got, false)
+		} else {
+			c.Bad(rule, FnName(fn)+" | response carries the operation's count and error", c.P.InstrPos(crs[0]), "createResponse is called as "+got+", expected count "+cntT+" and error "+errT, nil)
+		}
+		c.Guard(rule, fn, crs, "createResponse", nil, Need{Desc: "after the data operation", Instr: func(in ssa.Instruction) bool { return in == op }})
+		if h.name == "handleRead" {
+			var buf []ssa.Instruction
+			eachInstr(fn, func(in ssa.Instruction) {
+				if s, ok := in.(*ssa.Store); ok && R.V(s.Addr) == "&"+msg+".Data" {
+					buf = append(buf, in)
+				}
+			})
+			if len(buf) == 1 && R.V(buf[0].(*ssa.Store).Val) == "makeslice("+msg+".Size)" {
+				c.Guard(rule, fn, []ssa.Instruction{op}, "ReadAt", nil, Need{Desc: "into a fresh buffer of Size bytes", Instr: func(in ssa.Instruction) bool { return in == buf[0] }})
+			} else {
+				c.Bad(rule, FnName(fn)+" | read buffer", "", "the read buffer is not a fresh slice of msg.Size bytes", nil)
+			}
+		}
+	}
+	// createResponse
+	if fn := c.Anchor(rule, fRSrv+"createResponse"); fn != nil {
+		R := NewRenderer(fn)
+		msg, errP := paramOfType(fn, "*rpc.Message"), paramOfType(fn, "error")
+		kResp, _ := c.P.pkgIntConst("rpc", "TypeResponse")
+		kErr, _ := c.P.pkgIntConst("rpc", "TypeError")
+		kEOF, _ := c.P.pkgIntConst("rpc", "TypeEOF")
+		var stErr, stResp, stEOF, dataErr []ssa.Instruction
+		eachInstr(fn, func(in ssa.Instruction) {
+			s, ok := in.(*ssa.Store)
+			if !ok {
+				return
+			}
+			switch R.V(s.Addr) {
+			case "&" + msg + ".Type":
+				switch R.V(s.Val) {
+				case fmt.Sprint(kErr):
+					stErr = append(stErr, in)
+				case fmt.Sprint(kResp):
+					stResp = append(stResp, in)
+				case fmt.Sprint(kEOF):
+					stEOF = append(stEOF, in)
+				default:
+					c.Bad(rule, FnName(fn)+" | reply type", c.P.InstrPos(in), "reply type set to "+R.V(s.Val), nil)
+				}
+			case "&" + msg + ".Data":
+				if R.V(s.Val) == "invoke.Error("+errP+")" {
+					dataErr = append(dataErr, in)
+				}
+			}
+		})
+		if len(stErr) == 1 && len(stResp) >= 1 && len(dataErr) == 1 {
+			// every exit reached with a non-nil, non-EOF error has passed the TypeError store, after
+			// any store of another type
+			isNil := atomEdges(fn, R, eqAtom(errP, "nil"))
+			isEOF := atomEdges(fn, R, eqAtom(errP, "io.EOF"))
+			ws := Query{Fn: fn,
+				IsSite:   func(in ssa.Instruction) bool { _, ok := in.(*ssa.Return); return ok },
+				Gen:      func(in ssa.Instruction) bool { return in == stErr[0] },
+				Kill:     func(in ssa.Instruction) bool { return in != stErr[0] && (containsInstr(stResp, in) || containsInstr(stEOF, in)) },
+				SkipEdge: orEdges(isNil, isEOF)}.Run()
+			if len(ws) == 0 {
+				c.OK(rule, FnName(fn)+" | an error is answered with TypeError", c.P.InstrPos(stErr[0]), "every exit with err != nil (not EOF) leaves Type = TypeError", true)
+			} else {
+				c.Bad(rule, FnName(fn)+" | an error is answered with TypeError", c.P.InstrPos(ws[0].Site), "a failed operation can be answered with a reply that is not TypeError: the client reports success", c.witness(ws[0]))
+			}
+			c.Guard(rule, fn, stErr, "Type = TypeError", nil, atom("error is non-nil", neAtom(errP, "nil")))
+			c.Guard(rule, fn, stEOF, "Type = TypeEOF", nil, atom("error is io.EOF", eqAtom(errP, "io.EOF")))
+			// the error text travels as payload, in the TypeError branch
+			if dataErr[0].Block() == stErr[0].Block() {
+				c.OK(rule, FnName(fn)+" | error text is the payload", c.P.InstrPos(dataErr[0]), "Data = err.Error() next to Type = TypeError", false)
+			} else {
+				c.Bad(rule, FnName(fn)+" | error text is the payload", c.P.InstrPos(dataErr[0]), "Data = err.Error() is not set where Type = TypeError is", nil)
+			}
+		} else {
+			c.Bad(rule, FnName(fn)+" | reply types", "", fmt.Sprintf("expected stores of TypeResponse, one TypeError and Data = err.Error(); found %d/%d/%d", len(stResp), len(stErr), len(dataErr)), nil)
+		}
+	}
+	c.Floor(rule, 25)
+}
+
+func containsInstr(xs []ssa.Instruction, in ssa.Instruction) bool {
+	for _, x := range xs {
+		if x == in {
+			return true
+		}
+	}
+	return false
+}
